@@ -124,6 +124,9 @@ ProviderListener.vos ProviderListener.vok ProviderListener.required_vos: Provide
 ProviderConverge.vo ProviderConverge.glob ProviderConverge.v.beautified ProviderConverge.required_vo: ProviderConverge.v Base.vo Fields.vo SrcFacts.vo Msg.vo SrcDecisions.vo Cache.vo CacheSpec.vo CacheProofs.vo Sim.vo Prober.vo Hostname.vo HostnameInv.vo Provider.vo ProviderProofs.vo ProviderListener.vo
 ProviderConverge.vio: ProviderConverge.v Base.vio Fields.vio SrcFacts.vio Msg.vio SrcDecisions.vio Cache.vio CacheSpec.vio CacheProofs.vio Sim.vio Prober.vio Hostname.vio HostnameInv.vio Provider.vio ProviderProofs.vio ProviderListener.vio
 ProviderConverge.vos ProviderConverge.vok ProviderConverge.required_vos: ProviderConverge.v Base.vos Fields.vos SrcFacts.vos Msg.vos SrcDecisions.vos Cache.vos CacheSpec.vos CacheProofs.vos Sim.vos Prober.vos Hostname.vos HostnameInv.vos Provider.vos ProviderProofs.vos ProviderListener.vos
+ProviderTarget.vo ProviderTarget.glob ProviderTarget.v.beautified ProviderTarget.required_vo: ProviderTarget.v Base.vo Fields.vo SrcFacts.vo Msg.vo SrcDecisions.vo Cache.vo CacheSpec.vo CacheProofs.vo Sim.vo SimProofs.vo Prober.vo Hostname.vo HostnameInv.vo Provider.vo ProviderProofs.vo ProviderListener.vo ProviderConverge.vo
+ProviderTarget.vio: ProviderTarget.v Base.vio Fields.vio SrcFacts.vio Msg.vio SrcDecisions.vio Cache.vio CacheSpec.vio CacheProofs.vio Sim.vio SimProofs.vio Prober.vio Hostname.vio HostnameInv.vio Provider.vio ProviderProofs.vio ProviderListener.vio ProviderConverge.vio
+ProviderTarget.vos ProviderTarget.vok ProviderTarget.required_vos: ProviderTarget.v Base.vos Fields.vos SrcFacts.vos Msg.vos SrcDecisions.vos Cache.vos CacheSpec.vos CacheProofs.vos Sim.vos SimProofs.vos Prober.vos Hostname.vos HostnameInv.vos Provider.vos ProviderProofs.vos ProviderListener.vos ProviderConverge.vos
 Properties_C05.vo Properties_C05.glob Properties_C05.v.beautified Properties_C05.required_vo: Properties_C05.v Base.vo Fields.vo SrcFacts.vo Msg.vo SrcDecisions.vo Cache.vo CacheSpec.vo CacheProofs.vo
 Properties_C05.vio: Properties_C05.v Base.vio Fields.vio SrcFacts.vio Msg.vio SrcDecisions.vio Cache.vio CacheSpec.vio CacheProofs.vio
 Properties_C05.vos Properties_C05.vok Properties_C05.required_vos: Properties_C05.v Base.vos Fields.vos SrcFacts.vos Msg.vos SrcDecisions.vos Cache.vos CacheSpec.vos CacheProofs.vos
@@ -160,9 +163,9 @@ Properties_C14.vos Properties_C14.vok Properties_C14.required_vos: Properties_C1
 Properties_C13.vo Properties_C13.glob Properties_C13.v.beautified Properties_C13.required_vo: Properties_C13.v Base.vo Fields.vo SrcFacts.vo Msg.vo SrcDecisions.vo Cache.vo CacheSpec.vo Sim.vo Prober.vo Hostname.vo Provider.vo ProviderSpec.vo ProviderProofs.vo ProviderListener.vo
 Properties_C13.vio: Properties_C13.v Base.vio Fields.vio SrcFacts.vio Msg.vio SrcDecisions.vio Cache.vio CacheSpec.vio Sim.vio Prober.vio Hostname.vio Provider.vio ProviderSpec.vio ProviderProofs.vio ProviderListener.vio
 Properties_C13.vos Properties_C13.vok Properties_C13.required_vos: Properties_C13.v Base.vos Fields.vos SrcFacts.vos Msg.vos SrcDecisions.vos Cache.vos CacheSpec.vos Sim.vos Prober.vos Hostname.vos Provider.vos ProviderSpec.vos ProviderProofs.vos ProviderListener.vos
-Properties_C12.vo Properties_C12.glob Properties_C12.v.beautified Properties_C12.required_vo: Properties_C12.v Base.vo Fields.vo SrcFacts.vo Msg.vo SrcDecisions.vo Cache.vo CacheSpec.vo Sim.vo Prober.vo Hostname.vo Provider.vo ProviderSpec.vo ProviderProofs.vo ProviderListener.vo ProviderConverge.vo
-Properties_C12.vio: Properties_C12.v Base.vio Fields.vio SrcFacts.vio Msg.vio SrcDecisions.vio Cache.vio CacheSpec.vio Sim.vio Prober.vio Hostname.vio Provider.vio ProviderSpec.vio ProviderProofs.vio ProviderListener.vio ProviderConverge.vio
-Properties_C12.vos Properties_C12.vok Properties_C12.required_vos: Properties_C12.v Base.vos Fields.vos SrcFacts.vos Msg.vos SrcDecisions.vos Cache.vos CacheSpec.vos Sim.vos Prober.vos Hostname.vos Provider.vos ProviderSpec.vos ProviderProofs.vos ProviderListener.vos ProviderConverge.vos
+Properties_C12.vo Properties_C12.glob Properties_C12.v.beautified Properties_C12.required_vo: Properties_C12.v Base.vo Fields.vo SrcFacts.vo Msg.vo SrcDecisions.vo Cache.vo CacheSpec.vo Sim.vo Prober.vo Hostname.vo Provider.vo ProviderSpec.vo ProviderProofs.vo ProviderListener.vo ProviderConverge.vo ProviderTarget.vo SimProofs.vo
+Properties_C12.vio: Properties_C12.v Base.vio Fields.vio SrcFacts.vio Msg.vio SrcDecisions.vio Cache.vio CacheSpec.vio Sim.vio Prober.vio Hostname.vio Provider.vio ProviderSpec.vio ProviderProofs.vio ProviderListener.vio ProviderConverge.vio ProviderTarget.vio SimProofs.vio
+Properties_C12.vos Properties_C12.vok Properties_C12.required_vos: Properties_C12.v Base.vos Fields.vos SrcFacts.vos Msg.vos SrcDecisions.vos Cache.vos CacheSpec.vos Sim.vos Prober.vos Hostname.vos Provider.vos ProviderSpec.vos ProviderProofs.vos ProviderListener.vos ProviderConverge.vos ProviderTarget.vos SimProofs.vos
 Properties_C11.vo Properties_C11.glob Properties_C11.v.beautified Properties_C11.required_vo: Properties_C11.v Base.vo Fields.vo SrcFacts.vo Msg.vo SrcDecisions.vo Sim.vo Prober.vo Hostname.vo Provider.vo ProviderSpec.vo ProviderProofs.vo
 Properties_C11.vio: Properties_C11.v Base.vio Fields.vio SrcFacts.vio Msg.vio SrcDecisions.vio Sim.vio Prober.vio Hostname.vio Provider.vio ProviderSpec.vio ProviderProofs.vio
 Properties_C11.vos Properties_C11.vok Properties_C11.required_vos: Properties_C11.v Base.vos Fields.vos SrcFacts.vos Msg.vos SrcDecisions.vos Sim.vos Prober.vos Hostname.vos Provider.vos ProviderSpec.vos ProviderProofs.vos
